@@ -1349,6 +1349,9 @@ pub struct HistoryIterator<'a> {
 	first_visible_seen: bool,
 	latest_is_hard_delete: bool,
 	barrier_seen: bool, // True once we hit HARD_DELETE or REPLACE
+	// (seq_num, timestamp) of the version examined last for the current user key: the same
+	// version can come from two sources (see `is_repeated_version`)
+	last_version: Option<(u64, u64)>,
 
 	// === Backward iteration state (buffered) ===
 	backward_buffer: Vec<BufferedEntry>,
@@ -1387,6 +1390,7 @@ impl<'a> HistoryIterator<'a> {
 			first_visible_seen: false,
 			latest_is_hard_delete: false,
 			barrier_seen: false,
+			last_version: None,
 			backward_buffer: Vec::new(),
 			backward_buffer_index: None,
 			ts_range,
@@ -1575,7 +1579,18 @@ impl<'a> HistoryIterator<'a> {
 				self.first_visible_seen = false;
 				self.latest_is_hard_delete = false;
 				self.barrier_seen = false;
+				self.last_version = None;
 			}
+
+			// The same version can reach the merge from two sources: from the version index and
+			// from a memtable rebuilt out of the WAL after a crash between the index update and
+			// the manifest switch of a flush, or from two memtables when a batch's apply was
+			// retried after a rotation. List it once.
+			if self.last_version == Some((seq_num, timestamp)) {
+				self.inner_next()?;
+				continue;
+			}
+			self.last_version = Some((seq_num, timestamp));
 
 			// Skip invisible versions
 			if seq_num > self.snapshot_seq_num {
@@ -1707,6 +1722,7 @@ impl<'a> HistoryIterator<'a> {
 			value: Vec<u8>,
 		}
 		let mut versions: Vec<VersionInfo> = Vec::new();
+		let mut last_version: Option<(u64, u64)> = None;
 
 		while self.inner_valid() {
 			let key_ref = self.inner_key();
@@ -1725,7 +1741,11 @@ impl<'a> HistoryIterator<'a> {
 				None => true,
 			};
 
-			if visible && in_ts_range {
+			// The same version from two sources (see `skip_to_valid_forward`): keep one
+			let repeated = last_version == Some((seq_num, timestamp));
+			last_version = Some((seq_num, timestamp));
+
+			if visible && in_ts_range && !repeated {
 				versions.push(VersionInfo {
 					is_hard_delete: key_ref.is_hard_delete_marker(),
 					is_replace: key_ref.is_replace(),
